@@ -125,7 +125,7 @@ def run(tier, seed, replay):
         ops = hist.gen_ops(rng, g, rng.randrange(4, 14), mix={'W': 55, 'D': 15, 'F': 15, 'R': 10, 'K': 5}, flush_end=False)
         ops = [o for o in ops if o[0] != 'O']
         image, init = None, None
-        if k % 4 == 1:
+        if k % 4 == 1 and k % 8 != 6:
             # cache pressure: more L2 slices in use than the cache holds and no flush in between, so loading a
             # slice evicts a dirty one (write-back inside the operation)
             cbx = rng.choice([9, 10, 11])
@@ -145,6 +145,30 @@ def run(tier, seed, replay):
                 tag += 1
                 if rng.random() < 0.15:
                     ops.append(('R', c * g.cs, g.cs))
+        if k % 8 == 6:
+            # slice loads from disk: mappings in several slices are flushed, the caches emptied, and the slices are loaded
+            # again one after the other (a failed load, then the load of another slice, then the first region again)
+            cbx = rng.choice([9, 10])
+            se = 64
+            nsl = rng.choice([3, 4, 5])
+            g = hist.Geom(cbx, rng.choice([2, 4, 6]), (nsl * se) << cbx, 9, (9, 2 << 9), (9, rng.choice([2, 8]) << 9), punch=1)
+            order = list(range(nsl))
+            rng.shuffle(order)
+            ops, tag = [], 1
+            for sl in order:
+                ops.append(('W', (sl * se + rng.randrange(0, 30)) * g.cs, g.cs, tag))
+                tag += 1
+            ops += [('F',), ('K',)]
+            rng.shuffle(order)
+            for i in range(nsl):
+                x, y = order[i], order[(i + 1) % nsl]
+                # region x (its slice load may fail), another region, region x again - then everything is dropped again
+                ops.append(('R', (x * se + rng.randrange(0, 30)) * g.cs, 512))
+                ops.append(('R', (y * se + rng.randrange(0, 30)) * g.cs, 512))
+                ops.append(('W', (x * se + 30 + rng.randrange(0, 30)) * g.cs, 512, tag))
+                tag += 1
+                ops += [('F',), ('K',)]
+            image, init = None, None
         if k % 8 == 4:
             # COW from a backing image with SMALLER clusters: one COW reads several backing clusters; faults hit reads of
             # the backing file (file index 1)
@@ -183,7 +207,7 @@ def run(tier, seed, replay):
                 image = 'image file %s\nimage file %s' % (paths[0], paths[1])
             except ValueError:
                 image, init = None, None
-        if k % 3 == 2 and k % 8 != 4:
+        if k % 3 == 2 and k % 8 not in (4, 6):
             # independently built image: compressed / zero / preallocated clusters, free clusters with stale content
             import foreign
             for _ in range(8):
@@ -213,6 +237,16 @@ def run(tier, seed, replay):
         if not rq:
             continue
         total = int(rq[0].split()[1].split('/')[0])
+        nreads = total - int(rq[0].split()[1].split('/')[1])
+        # every read of the history fails once (reads are few: table / slice loads, COW sources) - in the quick tier the
+        # sampled request indices rarely hit them
+        for kk in range(min(nreads, 40 if tier == 'quick' else 400)):
+            cid = 'c17_%d_rd%d' % (k, kk)
+            fl = ['fault R 0 %d %d' % (1 << 40, kk)]
+            text, sweeps = build_variant(cid, g, ops, fl, rng, image)
+            text = text.replace('open %s\n%s\n' % (g.params(), fl[0]), '%s\nopen %s\n' % (fl[0], g.params()))
+            variants.append((cid, text))
+            meta[cid] = (g, ops, sweeps, 'faults: ' + fl[0], init)
         # requests issued by open() come first: find how many by a run without ops
         idxs = list(range(total))
         if tier == 'quick' and len(idxs) > 60:
